@@ -161,7 +161,7 @@ def reference(prs, dests, qw, status, force):
 # ---------------------------------------------------------------------------
 # per configuration
 # ---------------------------------------------------------------------------
-def build_world(root, layout, dsts, order=None):
+def build_world(root, layout, dsts, order=None, pre=None):
     from ..sysmc.world import World, Config
     from ..sysmc import events as E
     from ..sysmc.drivers import BYPASS_REVIEW
@@ -172,11 +172,28 @@ def build_world(root, layout, dsts, order=None):
     w.init_layout()
     w.new_berte()
     w.set_pending([])
+    base = 0
+    if pre:
+        # prehistory: an earlier pull request went through the queue and was
+        # merged, which leaves empty queue branches behind
+        base = 1
+        E.apply(w, ['open', 'bugfix/TEST-0', pre])
+        o = E.apply(w, ['eval_pr', 1])
+        E.apply(w, ['ci_q_all', 'SUCCESSFUL'])
+        o2 = E.apply(w, ['eval_pr', 1])
+        if (o.get('status'), o2.get('status')) != ('Queued', 'Merged'):
+            return w, ['prehistory: %s %s' % (o.get('status'),
+                                              o2.get('status'))]
+    ids = []
     for i, dst in enumerate(dsts):
-        E.apply(w, ['open', 'bugfix/TEST-%d' % (i + 1), dst])
+        src = 'bugfix/TEST-%d' % (i + 1)
+        E.apply(w, ['open', src, dst])
+        ids.append([p['id'] for p in w.state()['prs']
+                    if p['src'] == src][0])
+    w.pr_ids = ids
     sts = []
     for i in (order or range(len(dsts))):
-        o = E.apply(w, ['eval_pr', i + 1])
+        o = E.apply(w, ['eval_pr', ids[i]])
         sts.append(o.get('status'))
     return w, sts
 
@@ -214,14 +231,15 @@ def run_real_class(graph, table, force):
 
 
 def config_task(args):
-    root, layout, dsts, order, tier, seed = args
+    root, layout, dsts, order, tier, seed, pre = args
+    base = 1 if pre else 0
     res = {'layout': layout, 'dsts': dsts, 'order': order, 'evaluations': 0,
            'nontrivial': 0, 'mismatches': [], 'replays': 0,
            'replay_mismatches': [], 'error': None, 'commits': 0}
     try:
         core.import_berte()
         from ..sysmc import events as E
-        w, sts = build_world(root, layout, dsts, order)
+        w, sts = build_world(root, layout, dsts, order, pre)
         if any(s != 'Queued' for s in sts):
             res['error'] = 'could not queue %s on %s: %s' % (dsts, layout,
                                                               sts)
@@ -233,7 +251,7 @@ def config_task(args):
         dests = LAYOUT_DESTS[layout]
         # pull requests in order of entry into the queue (ids are given
         # at opening time and need not follow that order)
-        prs = [(i + 1, dsts[i]) for i in order]
+        prs = [(w.pr_ids[i], dsts[i]) for i in order]
         qw = {}
         for pid, dst in prs:
             for t in targets_of(dst, dests):
@@ -276,7 +294,9 @@ def config_task(args):
                     if len(res['mismatches']) < 20:
                         res['mismatches'].append({
                             'layout': layout, 'destinations': dsts,
+                            'prehistory': pre,
                             'entry_order': [i + 1 for i in order],
+                            'pr_ids': list(w.pr_ids),
                             'statuses': {'%d@%s' % k: table[v]
                                          for k, v in qw.items()},
                             'force_merge': force,
@@ -302,7 +322,8 @@ def config_task(args):
             post = w.state()
             merged = sorted(p['id'] for p in post['prs']
                             if p['author'] != 'robot' and
-                            p['state'] == 'MERGED')
+                            p['state'] == 'MERGED' and
+                            p['id'] in w.pr_ids)
             moved = {b: s for b, s in post['refs'].items()
                      if b in dests and pre['refs'].get(b) != s}
             res['replays'] += 1
@@ -313,6 +334,7 @@ def config_task(args):
             if not agree:
                 res['replay_mismatches'].append({
                     'layout': layout, 'destinations': dsts,
+                    'prehistory': pre,
                     'entry_order': [i + 1 for i in order],
                     'on_graph': [got[0], {k: v[:8] for k, v in
                                           got[1].items()}]
@@ -344,17 +366,24 @@ def configs(tier):
                     perms = perms[:1] if tier == 'quick' else [perms[0],
                                                                perms[-1]]
                 for order in perms:
-                    out.append((layout, list(dsts), list(order)))
+                    out.append((layout, list(dsts), list(order), None))
+        # the same after a prehistory (a pull request to the oldest
+        # development branch queued, built and merged: empty queue branches
+        # are left behind)
+        pre = [d for d in dests if d.startswith('development/')][0]
+        for n in range(1, (2 if tier == 'quick' else 3) + 1):
+            for dsts in itertools.product(dests, repeat=n):
+                out.append((layout, list(dsts), list(range(n)), pre))
     # two stabilization branches (three merge paths): every pair, and one
     # representative triple per destination-kind pattern in the quick tier
     S1, D1, S2 = ('stabilization/4.3.18', 'development/4.3',
                   'stabilization/5.1.5')
     if tier == 'quick':
         for dsts in itertools.product(LAYOUT_DESTS['SS3'], repeat=2):
-            out.append(('SS3', list(dsts), [0, 1]))
+            out.append(('SS3', list(dsts), [0, 1], None))
         for dsts in ([D1, D1, S2], [D1, S2, D1], [S1, S1, S2], [S1, D1, S2],
                      [S1, S2, D1], [D1, S2, S2]):
-            out.append(('SS3', dsts, [0, 1, 2]))
+            out.append(('SS3', dsts, [0, 1, 2], None))
     return out
 
 
@@ -382,8 +411,8 @@ def run(tier, seed, workers=None):
     root = explorer.master_root()
     os.makedirs(root, exist_ok=True)
     cr = CheckResult(PROP, 'model_checking')
-    tasks = [(root, layout, dsts, order, tier, seed)
-             for layout, dsts, order in configs(tier)]
+    tasks = [(root, layout, dsts, order, tier, seed, pre)
+             for layout, dsts, order, pre in configs(tier)]
     ctx = mp.get_context('fork')
     results = []
     try:
@@ -405,9 +434,9 @@ def run(tier, seed, workers=None):
         for m in r['mismatches']:
             cr.add_violation(
                 'QueueCollection selects %s, the statement says %s: %s' % (
-                    m['code'], m['statement'], {k: m[k] for k in (
-                        'layout', 'destinations', 'entry_order', 'statuses',
-                        'force_merge')}),
+                    m['code'], m['statement'], {k: m.get(k) for k in (
+                        'layout', 'destinations', 'prehistory',
+                        'entry_order', 'statuses', 'force_merge')}),
                 classify(m), {'engine': 'enum', 'case': m})
     sample = [{'layout': r['layout'], 'destinations': r['dsts'],
                'queue_commits': r['commits'],
@@ -422,7 +451,8 @@ def run(tier, seed, workers=None):
                 'request (every choice, in order of entry), queue built on a '
                 'real repository by real Bert-E (pull requests entering the '
                 'queue in every order, i.e. ids need not follow the order of '
-                'entry) and its commit graph '
+                'entry; also after a prehistory that leaves empty queue '
+                'branches behind) and its commit graph '
                 'extracted; then every assignment of {SUCCESSFUL, FAILED, '
                 'INPROGRESS, NOTSTARTED} (2-valued beyond 6/8 queue commits) '
                 'to every queue commit, force merge on a subset; '
@@ -445,10 +475,12 @@ def replay(data):
     try:
         order = [i - 1 for i in m.get('entry_order') or range(
             1, len(m['destinations']) + 1)]
-        w, sts = build_world(root, m['layout'], m['destinations'], order)
+        pre = m.get('prehistory')
+        base = 1 if pre else 0
+        w, sts = build_world(root, m['layout'], m['destinations'], order, pre)
         graph = extract_graph(w)
         dests = LAYOUT_DESTS[m['layout']]
-        prs = [(i + 1, m['destinations'][i]) for i in order]
+        prs = [(w.pr_ids[i], m['destinations'][i]) for i in order]
         qw, table = {}, {}
         for key, st in m['statuses'].items():
             pid, t = key.split('@')
